@@ -27,11 +27,18 @@ spif_bool_t spif_socket_send(spif_socket_t self, spif_str_t data)
 __CPROVER_requires(SOCK_IS(self) && VG_FD_OPEN(self->fd))
 __CPROVER_requires(__CPROVER_is_fresh(data, sizeof(spif_const_str_t)) && data->len > 0 && data->len < data->size && data->size <= VCAP)
 __CPROVER_requires(__CPROVER_is_fresh(data->s, (size_t) data->size) && data->s[data->len] == 0)
-__CPROVER_requires(vg_wr_base == (const char *) data->s && vg_wr_len == (size_t) data->len && vg_wr_total == 0 && vg_wr_in_order && vg_wr_retries == 0)
+__CPROVER_requires(vg_wr_base == (const char *) data->s && vg_wr_len == (size_t) data->len && vg_wr_total == 0 && vg_wr_in_order && vg_wr_retries == 0 && !vg_wr_hard)
 __CPROVER_assigns(self->fd, self->flags, VG_KERNEL_ASSIGNS, VG_WRITE_ASSIGNS, vg_wr_base, vg_iter)
 __CPROVER_ensures(__CPROVER_return_value == TRUE || __CPROVER_return_value == FALSE)
 __CPROVER_ensures(__CPROVER_return_value != TRUE || (vg_wr_total == vg_wr_len && vg_wr_in_order))
+/* "however the kernel ... interrupts individual calls (EINTR, EAGAIN)": FALSE only after a write() failed for good */
+__CPROVER_ensures(__CPROVER_return_value != FALSE || vg_wr_hard)
 __CPROVER_ensures(SOCK_FD_OK(self))
+#ifdef NET_SEND_FD_ACCOUNTING
+/* "no object left referring to a closed descriptor, every descriptor closed by the time the object is deleted":
+ * the object keeps its descriptor, or it forgot it and the descriptor is released */
+__CPROVER_ensures(self->fd == __CPROVER_old(self->fd) || (self->fd == -1 && !vg_fd_open[__CPROVER_old(self->fd)]))
+#endif
 ;
 
 /* ---- close -------------------------------------------------------------------------------------- */
